@@ -99,6 +99,12 @@ pub struct History {
     /// context-switch settings of the recording (None = the attr the older families use: cpu-clock, period
     /// 1 000 000, no context_switch bit, one event)
     pub cs: Option<CsCfg>,
+    /// explicit file layout (`layout` op line): the rounds of the perf.data file, each a list of indices into
+    /// `recs` in file order. Empty = the writer draws a layout (then `recs` must be time-ordered). With an
+    /// explicit layout `recs` is the order in which linux-perf-data's round sorter delivers the records of that
+    /// file (checked by `sorter_delivery` before the file is written), which need not be time-ordered: records
+    /// of round N+2 may be older than records of round N.
+    pub layout: Vec<Vec<usize>>,
 }
 
 /// One line of a perf map file: a well-formed `<hexaddr> <hexlen> <name>` line, or arbitrary text.
@@ -168,6 +174,10 @@ impl History {
             let _ = write!(cfg, " {}", cs.word());
         }
         let mut v = vec![cfg];
+        if !self.layout.is_empty() {
+            let rounds: Vec<String> = self.layout.iter().map(|r| r.iter().map(|i| i.to_string()).collect::<Vec<_>>().join(",")).collect();
+            v.push(format!("layout {}", rounds.join(";")));
+        }
         for (pid, l) in &self.perf_maps {
             v.push(match l {
                 PerfMapLine::Fn { addr, len, name } => format!("perfmap {pid} {addr} {len} {}", hex_str(name)),
@@ -233,6 +243,15 @@ impl History {
                         if parts.len() == 3 && parts[0] == "cs" {
                             h.cs = Some(CsCfg::parse(parts[1], parts[2])?);
                         }
+                    }
+                }
+                Some("layout") => {
+                    for r in w.get(1)?.split(';') {
+                        let mut round = Vec::new();
+                        for x in r.split(',').filter(|x| !x.is_empty()) {
+                            round.push(x.parse().ok()?);
+                        }
+                        h.layout.push(round);
                     }
                 }
                 Some("perfmap") => h.perf_maps.push((n(1)? as u32, PerfMapLine::Fn { addr: n(2)?, len: n(3)?, name: str_hex(w.get(4)?) })),
@@ -393,6 +412,88 @@ fn encode_switch(e: Enc, pid: u32, tid: u32, t: u64, misc: u16) -> Vec<u8> {
     rec_bytes(if e.cpu_wide { PERF_RECORD_SWITCH_CPU_WIDE } else { PERF_RECORD_SWITCH }, misc, &b)
 }
 
+/// EXIT record as the kernel writes it: `ppid` / `ptid` are the ids of the *parent* task (not read by the
+/// converter; a mix-up of `e.ptid` / `e.tid` in `handle_exit` must not go unnoticed)
+fn encode_exit(e: Enc, pid: u32, tid: u32, ppid: u32, ptid: u32, t: u64) -> Vec<u8> {
+    let mut b = Vec::new();
+    b.extend_from_slice(&pid.to_le_bytes());
+    b.extend_from_slice(&ppid.to_le_bytes());
+    b.extend_from_slice(&tid.to_le_bytes());
+    b.extend_from_slice(&ptid.to_le_bytes());
+    b.extend_from_slice(&t.to_le_bytes());
+    b.extend_from_slice(&sample_id(e, pid, tid, t));
+    rec_bytes(PERF_RECORD_EXIT, 0, &b)
+}
+
+/// The parent ids an EXIT record of `recs[i]` carries: those of the FORK record that created the task (or its
+/// process) earlier in the history, else init (1, 1).
+fn exit_parent(recs: &[Rec], i: usize) -> (u32, u32) {
+    let Rec::Exit { pid, tid, .. } = &recs[i] else { return (1, 1) };
+    let mut of_proc = None;
+    for r in recs[..i].iter().rev() {
+        if let Rec::Fork { pid: p, tid: t, ppid, ptid, .. } = r {
+            if p == pid && t == tid {
+                return (*ppid, *ptid);
+            }
+            if p == pid && of_proc.is_none() {
+                of_proc = Some((*ppid, *ptid));
+            }
+        }
+    }
+    of_proc.unwrap_or((1, 1))
+}
+
+/// The order in which linux-perf-data's `Sorter` (sorter.rs; driven by `PerfRecordIter::read_next_round`)
+/// delivers the records of a file: `rounds` = the file's rounds, each a list of (timestamp, id) in file order.
+/// The key is (timestamp, file offset). At every FINISHED_ROUND the records with key <= the maximum key of the
+/// rounds before the one just finished are delivered in key order; the rest at the end of the file.
+pub fn sorter_delivery(rounds: &[Vec<(u64, usize)>]) -> Vec<usize> {
+    let mut out = Vec::new();
+    let mut incoming: Vec<((u64, usize), usize)> = Vec::new();
+    let mut prev_max: Option<(u64, usize)> = None;
+    let mut cur_max: Option<(u64, usize)> = None;
+    let mut lte = 0usize;
+    let mut offset = 0usize;
+    for round in rounds {
+        for (t, id) in round {
+            let key = (*t, offset);
+            offset += 1;
+            if Some(key) <= prev_max {
+                lte += 1;
+            } else if Some(key) > cur_max {
+                cur_max = Some(key);
+            }
+            incoming.push((key, *id));
+        }
+        if lte > 0 {
+            incoming.sort();
+            out.extend(incoming.drain(..lte).map(|x| x.1));
+        }
+        prev_max = cur_max;
+        lte = incoming.len();
+    }
+    incoming.sort();
+    out.extend(incoming.into_iter().map(|x| x.1));
+    out
+}
+
+/// Does the explicit layout of `h` deliver exactly `h.recs` in order?
+pub fn layout_consistent(h: &History) -> bool {
+    let n = h.recs.len();
+    let mut seen = vec![false; n];
+    for i in h.layout.iter().flatten() {
+        if *i >= n || seen[*i] {
+            return false;
+        }
+        seen[*i] = true;
+    }
+    if seen.iter().any(|b| !b) {
+        return false;
+    }
+    let rounds: Vec<Vec<(u64, usize)>> = h.layout.iter().map(|r| r.iter().map(|i| (h.recs[*i].time(), *i)).collect()).collect();
+    sorter_delivery(&rounds) == (0..n).collect::<Vec<_>>()
+}
+
 pub fn encode_record_enc(r: &Rec, e: Enc) -> Vec<u8> {
     match r {
         Rec::Sample { pid, tid, t, kernel, period, ip, chain } => encode_sample(e, ID_MAIN, *pid, *tid, *t, *kernel, *period, *ip, chain),
@@ -411,16 +512,8 @@ pub fn encode_record_enc(r: &Rec, e: Enc) -> Vec<u8> {
             b.extend_from_slice(&sample_id(e, *pid, *tid, *t));
             rec_bytes(PERF_RECORD_FORK, 0, &b)
         }
-        Rec::Exit { pid, tid, t } => {
-            let mut b = Vec::new();
-            b.extend_from_slice(&pid.to_le_bytes());
-            b.extend_from_slice(&pid.to_le_bytes()); // ppid (unused by the converter)
-            b.extend_from_slice(&tid.to_le_bytes());
-            b.extend_from_slice(&tid.to_le_bytes()); // ptid
-            b.extend_from_slice(&t.to_le_bytes());
-            b.extend_from_slice(&sample_id(e, *pid, *tid, *t));
-            rec_bytes(PERF_RECORD_EXIT, 0, &b)
-        }
+        // without history context the parent is init (`write_perf_data` looks the parent up)
+        Rec::Exit { pid, tid, t } => encode_exit(e, *pid, *tid, 1, 1, *t),
         Rec::Comm { pid, tid, name, exec, t } => {
             let mut b = Vec::new();
             b.extend_from_slice(&pid.to_le_bytes());
@@ -530,7 +623,23 @@ pub fn write_perf_data(h: &History, path: &Path, layout_rng: &mut Rng) {
     let enc = Enc { ncpu: h.ncpu, with_id: two_events, cpu_wide: h.cs.as_ref().map(|c| c.wide).unwrap_or(false) };
     let mut data = Vec::new();
     let n = h.recs.len();
-    let mut i = 0;
+    // EXIT records carry the ids of the parent task (looked up in the history)
+    let encode = |idx: usize| -> Vec<u8> {
+        match &h.recs[idx] {
+            Rec::Exit { pid, tid, t } => {
+                let (ppid, ptid) = exit_parent(&h.recs, idx);
+                encode_exit(enc, *pid, *tid, ppid, ptid, *t)
+            }
+            r => encode_record_enc(r, enc),
+        }
+    };
+    for round in &h.layout {
+        for idx in round {
+            data.extend_from_slice(&encode(*idx));
+        }
+        data.extend_from_slice(&rec_bytes(PERF_RECORD_FINISHED_ROUND, 0, &[]));
+    }
+    let mut i = if h.layout.is_empty() { 0 } else { n };
     while i < n {
         let round_len = match layout_rng.below(4) {
             0 => n - i,
@@ -538,13 +647,12 @@ pub fn write_perf_data(h: &History, path: &Path, layout_rng: &mut Rng) {
             _ => 1 + layout_rng.below(20) as usize,
         }
         .min(n - i);
-        let round = &h.recs[i..i + round_len];
         // group by timestamp, keeping order inside a group
-        let mut groups: Vec<Vec<&Rec>> = Vec::new();
-        for r in round {
+        let mut groups: Vec<Vec<usize>> = Vec::new();
+        for k in i..i + round_len {
             match groups.last_mut() {
-                Some(g) if g[0].time() == r.time() => g.push(r),
-                _ => groups.push(vec![r]),
+                Some(g) if h.recs[g[0]].time() == h.recs[k].time() => g.push(k),
+                _ => groups.push(vec![k]),
             }
         }
         let shuffle = layout_rng.chance(1, 2);
@@ -553,7 +661,7 @@ pub fn write_perf_data(h: &History, path: &Path, layout_rng: &mut Rng) {
         while remaining > 0 {
             let live: Vec<usize> = (0..groups.len()).filter(|&g| cursors[g] < groups[g].len()).collect();
             let g = if shuffle { live[layout_rng.below(live.len() as u64) as usize] } else { live[0] };
-            data.extend_from_slice(&encode_record_enc(groups[g][cursors[g]], enc));
+            data.extend_from_slice(&encode(groups[g][cursors[g]]));
             cursors[g] += 1;
             remaining -= 1;
         }
@@ -757,6 +865,14 @@ pub fn run_import(h: &History, dir: &Path, tag: &str, extra_args: &[&str]) -> Re
 
 /// As `run_import`; also returns the pid substitution that was in force (for `extract_views_subst`).
 pub fn run_import_subst(h: &History, dir: &Path, tag: &str, extra_args: &[&str]) -> Result<(Value, PidSubst), String> {
+    if h.layout.is_empty() && h.recs.windows(2).any(|w| w[0].time() > w[1].time()) {
+        // records that are not time-ordered need an explicit file layout
+        return Err("err:layout".to_string());
+    }
+    if !h.layout.is_empty() && !layout_consistent(h) {
+        // the op lines do not list the records in the order the sorter delivers them from this layout
+        return Err("err:layout".to_string());
+    }
     let data = dir.join(format!("{tag}.data"));
     let out = dir.join(format!("{tag}.json"));
     let mut layout = Rng::new(fnv1a(&h.to_ops()));
@@ -1249,6 +1365,149 @@ pub fn gen_perf_map(rng: &mut Rng) -> (Vec<PerfMapLine>, Vec<(u64, u64)>) {
     (lines, ranges)
 }
 
+/// Harness-side mirror of which (pid, tid) incarnations are alive in the eager reading of a history
+/// (`ConvSpec.Life.step` in the Lean specification), and of the grammar clauses under which C17 is judged
+/// (`ConvSpec.Life.stepOk`: a FORK never names a bound child, `tid != pid`, `tid != ptid`, EXEC on main threads
+/// only). Used to steer the non-violating generator stream and to count the judged share of the cases; the
+/// authoritative decision is the Lean judge's.
+#[derive(Clone, Debug, Default)]
+pub struct LifeTrack {
+    /// alive processes: pid -> alive non-main tids (the main thread is alive exactly as long as the process)
+    pub procs: BTreeMap<u32, Vec<u32>>,
+    /// `current_sample_time` (starts at the reference time)
+    pub cur: u64,
+    pub ref_time: u64,
+    /// (pid, tid) pairs that have exited (or whose process has exited / exec'd) and were not re-created since
+    pub exited: Vec<(u32, u32)>,
+}
+
+impl LifeTrack {
+    pub fn new(ref_time: u64) -> Self {
+        LifeTrack { cur: ref_time, ref_time, ..Default::default() }
+    }
+    pub fn alive(&self, pid: u32, tid: u32) -> bool {
+        self.procs.get(&pid).map(|t| tid == pid || t.contains(&tid)).unwrap_or(false)
+    }
+    fn ensure_thread(&mut self, pid: u32, tid: u32) {
+        let e = self.procs.entry(pid).or_default();
+        if tid != pid && !e.contains(&tid) {
+            e.push(tid);
+        }
+        self.exited.retain(|x| *x != (pid, tid) && *x != (pid, pid));
+    }
+    fn end_proc(&mut self, pid: u32) {
+        if let Some(tids) = self.procs.remove(&pid) {
+            self.exited.push((pid, pid));
+            for t in tids {
+                self.exited.push((pid, t));
+            }
+        }
+    }
+    /// `Life.stepOk` evaluated in the state before the record
+    pub fn step_ok(&self, r: &Rec) -> bool {
+        match r {
+            Rec::Fork { pid, tid, ppid, ptid, .. } => {
+                if pid != ppid {
+                    !self.procs.contains_key(pid)
+                } else {
+                    tid != pid && tid != ptid && !self.alive(*pid, *tid)
+                }
+            }
+            Rec::Comm { pid, tid, exec, .. } => !*exec || pid == tid,
+            _ => true,
+        }
+    }
+    /// does the record mention a (pid, tid) that has exited and was not re-created (the converter then
+    /// creates a fresh on-demand entry)?
+    pub fn mentions_exited(&self, r: &Rec) -> bool {
+        let (pid, tid) = match r {
+            Rec::Sample { pid, tid, .. }
+            | Rec::Exit { pid, tid, .. }
+            | Rec::Comm { pid, tid, .. }
+            | Rec::Mmap2 { pid, tid, .. }
+            | Rec::SwitchIn { pid, tid, .. }
+            | Rec::SwitchOut { pid, tid, .. }
+            | Rec::Sched { pid, tid, .. } => (*pid, *tid),
+            Rec::Fork { ppid, ptid, .. } => (*ppid, *ptid),
+        };
+        self.exited.contains(&(pid, tid)) || (self.exited.contains(&(pid, pid)) && !self.procs.contains_key(&pid))
+    }
+    /// a non-main thread's EXIT for a pid without live process (e.g. after the main thread's EXIT): the
+    /// converter re-creates a process entry on demand (`handle_exit` -> `get_by_pid`)
+    pub fn orphan_thread_exit(&self, r: &Rec) -> bool {
+        matches!(r, Rec::Exit { pid, tid, .. } if pid != tid && !self.procs.contains_key(pid))
+    }
+    pub fn step(&mut self, r: &Rec) {
+        match r {
+            Rec::Sample { pid, tid, t, .. } => {
+                if *tid != 0 {
+                    self.cur = *t;
+                    self.ensure_thread(*pid, *tid);
+                }
+            }
+            Rec::Fork { pid, tid, ppid, ptid, .. } => {
+                if pid != ppid {
+                    self.ensure_thread(*ppid, *ppid);
+                    if !self.procs.contains_key(pid) {
+                        self.ensure_thread(*pid, *pid);
+                    }
+                } else {
+                    self.ensure_thread(*ppid, *ptid);
+                    self.ensure_thread(*pid, *tid);
+                }
+            }
+            Rec::Exit { pid, tid, .. } => {
+                if pid == tid {
+                    self.end_proc(*pid);
+                } else {
+                    // an EXIT record creates nothing in the eager reading
+                    if let Some(e) = self.procs.get_mut(pid) {
+                        if e.contains(tid) {
+                            e.retain(|x| x != tid);
+                            self.exited.push((*pid, *tid));
+                        }
+                    }
+                }
+            }
+            Rec::Comm { pid, tid, exec, .. } => {
+                if *exec && pid == tid {
+                    self.end_proc(*pid);
+                }
+                self.ensure_thread(*pid, *tid);
+            }
+            Rec::Mmap2 { pid, tid, exec, path, .. } => {
+                if !(self.cur == self.ref_time || path.is_empty()) {
+                    self.ensure_thread(*pid, *tid);
+                }
+                if *exec {
+                    self.ensure_thread(*pid, *pid);
+                }
+            }
+            Rec::SwitchIn { pid, tid, .. } | Rec::SwitchOut { pid, tid, .. } => {
+                if *tid != 0 {
+                    self.ensure_thread(*pid, *tid);
+                }
+            }
+            Rec::Sched { pid, tid, .. } => self.ensure_thread(*pid, *tid),
+        }
+    }
+}
+
+/// Is the history inside the grammar under which the C17 judge applies (default options, `Life.grammarOk`)?
+pub fn c17_judged(h: &History) -> bool {
+    if h.reuse {
+        return false;
+    }
+    let mut lt = LifeTrack::new(h.ref_time);
+    for r in &h.recs {
+        if !lt.step_ok(r) {
+            return false;
+        }
+        lt.step(r);
+    }
+    true
+}
+
 struct Sim {
     /// live processes: pid -> live non-main tids
     live: BTreeMap<u32, Vec<u32>>,
@@ -1257,7 +1516,9 @@ struct Sim {
     next_new_pid: u32,
 }
 
-const NAMES: [&str; 7] = ["a", "b", "proc", "worker", "sh", "render thread", "x"];
+// the last five: non-ASCII (2- and 3-byte UTF-8), 15 bytes (TASK_COMM_LEN - 1, the longest the kernel writes),
+// 16 bytes, empty
+const NAMES: [&str; 12] = ["a", "b", "proc", "worker", "sh", "render thread", "x", "caf\u{e9}-thr\u{e9}ad", "\u{65e5}\u{672c}\u{8a9e}", "fifteen-bytes-x", "sixteen-bytes-xy", ""];
 // two of the paths share a file name (libraries are identified by path, not by name)
 const PATHS: [&str; 6] = [
     "/nonexistent-verif/bin/app",
@@ -1392,6 +1653,34 @@ pub fn gen_history(rng: &mut Rng, shape: &Shape) -> History {
         (kernel_mode, ip, c)
     };
 
+    // perf's synthesized records for tasks that already run when the recording starts: COMM / FORK / MMAP2
+    // stamped 0 at the head of the file (the `Some(0) | None => current_sample_time` arms of handle_exec /
+    // handle_thread_rename, converter.rs:1031-1034, 1085-1088; MMAP2 queued with timestamp 0)
+    if rng.chance(1, 5) {
+        for _ in 0..rng.range(1, 3) {
+            let pid = *rng.pick(&pid_pool);
+            if sim.live.contains_key(&pid) {
+                continue;
+            }
+            h.recs.push(Rec::Comm { pid, tid: pid, name: rng.pick(&NAMES).to_string(), exec: violate && rng.chance(1, 6), t: 0 });
+            sim.live.entry(pid).or_default();
+            for k in 0..rng.below(3) as u32 {
+                let tid = pid + 1 + k;
+                h.recs.push(Rec::Fork { pid, tid, ppid: pid, ptid: pid, t: 0 });
+                if rng.chance(2, 3) {
+                    h.recs.push(Rec::Comm { pid, tid, name: rng.pick(&NAMES).to_string(), exec: false, t: 0 });
+                }
+                sim.live.get_mut(&pid).unwrap().push(tid);
+            }
+            if rng.chance(2, 3) {
+                let page = 0x1000u64;
+                let addr = 0x40_0000 + page * rng.below(64);
+                let len = page * rng.range(1, 8);
+                h.recs.push(Rec::Mmap2 { pid, tid: pid, addr, len, pgoff: page * rng.below(3), exec: true, path: rng.pick(&PATHS).to_string(), t: 0 });
+                sim.maps.entry(pid).or_default().push((addr, addr + len));
+            }
+        }
+    }
     for _ in 0..len {
         sim.t += step(rng);
         let t = sim.t;
@@ -1460,7 +1749,11 @@ pub fn gen_history(rng: &mut Rng, shape: &Shape) -> History {
                 if !violate && sim.live[&pid].contains(&tid) {
                     continue;
                 }
-                let ptid = some_tid(rng, &sim, pid);
+                let mut ptid = some_tid(rng, &sim, pid);
+                if !violate && (ptid == tid || (ptid != pid && !sim.live[&pid].contains(&ptid))) {
+                    // the forking thread is alive and is not the child
+                    ptid = pid;
+                }
                 h.recs.push(Rec::Fork { pid, tid, ppid: pid, ptid, t });
                 let e = sim.live.entry(pid).or_default();
                 if !e.contains(&tid) {
@@ -1502,8 +1795,7 @@ pub fn gen_history(rng: &mut Rng, shape: &Shape) -> History {
                 if !violate && tid != pid && !sim.live[&pid].contains(&tid) {
                     tid = pid;
                 }
-                let t_rec = if violate && rng.chance(1, 10) { 0 } else { t };
-                let _ = t_rec;
+                // (COMM records stamped 0 are generated by the synthesized head below and by `out_of_order`)
                 h.recs.push(Rec::Comm { pid, tid, name: rng.pick(&NAMES).to_string(), exec: false, t });
                 if violate {
                     let e = sim.live.entry(pid).or_default();
@@ -1562,7 +1854,10 @@ pub fn gen_history(rng: &mut Rng, shape: &Shape) -> History {
                     }
                     sim.live.entry(pid).or_default();
                 }
-                let tid = if rng.chance(3, 4) { pid } else { some_tid(rng, &sim, pid) };
+                let mut tid = if rng.chance(3, 4) { pid } else { some_tid(rng, &sim, pid) };
+                if !violate && tid != pid && !sim.live.get(&pid).map(|l| l.contains(&tid)).unwrap_or(false) {
+                    tid = pid;
+                }
                 if !shape.mappings && !rng.chance(1, 3) {
                     continue;
                 }
@@ -1572,14 +1867,54 @@ pub fn gen_history(rng: &mut Rng, shape: &Shape) -> History {
                 let mut pgoff = page * rng.below(5).min(addr / page);
                 let mut exec = rng.chance(5, 6);
                 let mut path = if rng.chance(1, 12) { String::new() } else { rng.pick(&PATHS).to_string() };
+                // special paths (`//anon`, `[heap]`, `[stack]`, `[vvar]`): the record is ignored by the converter.
+                // Over the range of a live library (mostly) or anywhere. In recordings whose attribution is
+                // judged (C02) only once the candidate finding is recorded.
+                if rng.chance(1, 10) && (!shape.mappings || finding_enabled(FINDING_SPECIAL)) {
+                    path = rng.pick(&SPECIAL_PATHS).to_string();
+                    exec = rng.chance(5, 6);
+                    if let Some(m) = sim.maps.get(&pid).filter(|m| !m.is_empty()) {
+                        if rng.chance(3, 4) {
+                            let (s0, e0) = m[rng.below(m.len() as u64) as usize];
+                            match rng.below(3) {
+                                0 => {
+                                    addr = s0;
+                                    len = e0 - s0;
+                                }
+                                1 => {
+                                    addr = s0 + page * rng.below(((e0 - s0) / page).max(1));
+                                    len = page;
+                                }
+                                _ => {
+                                    addr = s0.saturating_sub(page).max(page);
+                                    len = e0 - addr + page;
+                                }
+                            }
+                            pgoff = 0;
+                        }
+                    }
+                    h.recs.push(Rec::Mmap2 { pid, tid, addr, len, pgoff, exec, path, t });
+                    // the generator keeps aiming addresses at the library that is (by the code) still there
+                    if violate {
+                        sim.live.entry(pid).or_default();
+                    }
+                    continue;
+                }
                 if !shape.files.is_empty() && rng.chance(1, 2) {
-                    // a file present on disk: map its executable segment exactly / a superset / a page of it
+                    // a file present on disk: map its executable segment exactly / a superset / a page of it /
+                    // a range that starts one page before the segment in the file (the `file_offset >` branch of
+                    // compute_vma_bias_impl) / a range no segment relates to (compute_base_avma = None: ignored)
                     let f = &shape.files[rng.below(shape.files.len() as u64) as usize];
-                    let (_svma, off, size) = f.segs[f.exec_seg];
+                    let (svma, off, size) = f.segs[f.exec_seg];
                     let size_pages = size.div_ceil(page) * page;
-                    let (o, l) = match rng.below(3) {
-                        0 => (off, size_pages),
-                        1 => (off, size_pages + page),
+                    // (a mapping that starts before the image base - the first mapped byte would have a stated
+                    // address below `relative_address_base` - underflows `mapping_start_avma - base_avma`: the
+                    // fixed family `mapping-before-image-base` of C02, candidate finding C02-mmap-arith-panic)
+                    let (o, l) = match rng.below(8) {
+                        0 | 1 => (off, size_pages),
+                        2 | 3 => (off, size_pages + page),
+                        4 if off >= page && svma >= f.base_svma + page => (off - page, size_pages + 2 * page),
+                        5 if rng.chance(1, 2) => (off + size_pages + 16 * page, page),
                         _ => (off + page * rng.below(size_pages / page), page),
                     };
                     pgoff = o;
@@ -1606,13 +1941,193 @@ pub fn gen_history(rng: &mut Rng, shape: &Shape) -> History {
     // time origin: the SAMPLE_TIME feature section names the first sample time (as perf writes it);
     // sometimes omit it (reference 0) or put it after the first records
     let first_sample = h.recs.iter().find_map(|r| if let Rec::Sample { t, .. } = r { Some(*t) } else { None });
-    h.ref_time = match (first_sample, rng.below(6)) {
+    let sample_times: Vec<u64> = h.recs.iter().filter_map(|r| if let Rec::Sample { t, .. } = r { Some(*t) } else { None }).collect();
+    h.ref_time = match (first_sample, rng.below(7)) {
         (Some(t), 0..=3) => t,
         (Some(t), 4) => t.saturating_sub(1000 * rng.below(5000)).max(1),
+        // SAMPLE_TIME later than the first samples (the first attr is not the main event): sample times
+        // before the reference saturate to profile time 0
+        (Some(_), 5) => *rng.pick(&sample_times),
         (None, 0..=2) => base_t,
         _ => 0,
     };
+    sanitize(&mut h, violate);
     h
+}
+
+/// Which records `out_of_order` may back-date.
+#[derive(Clone, Copy, Debug, Default)]
+pub struct OooKinds {
+    pub samples: bool,
+    pub mmap2: bool,
+    /// FORK / EXIT / COMM
+    pub lifecycle: bool,
+    /// COMM / MMAP2 / FORK records stamped 0 (perf's synthesized records)
+    pub zero: bool,
+}
+
+/// Turns a time-ordered history into one whose perf.data file violates the round contract of perf ("round N+2
+/// is not older than round N"): the records are laid out in small rounds, some records of round k >= 2 get a
+/// timestamp older than a record of a round <= k-2 (or 0), and `recs` becomes the order in which the reader's
+/// sorter delivers that file (`sorter_delivery`), with the layout as explicit `layout` op line.
+pub fn out_of_order(h: &mut History, rng: &mut Rng, kinds: OooKinds) {
+    // A sample older than an earlier-delivered sample of the same thread makes the debug build panic
+    // (shared/context_switch.rs:147, `timestamp - last_observed_on_timestamp`; the model says `panic` too and
+    // the judges do not apply): keep that to about a fifth of the histories so that the others are judged.
+    let orig = h.clone();
+    for attempt in 0..4 {
+        *h = orig.clone();
+        let k = if attempt == 3 { OooKinds { samples: false, ..kinds } } else { kinds };
+        out_of_order_once(h, rng, k);
+        let mut last: BTreeMap<(u32, u32), u64> = BTreeMap::new();
+        let mut decreasing = false;
+        for r in &h.recs {
+            if let Rec::Sample { pid, tid, t, .. } = r {
+                if let Some(t0) = last.insert((*pid, *tid), *t) {
+                    decreasing |= t0 > *t;
+                }
+            }
+        }
+        if !decreasing || (kinds.samples && rng.chance(1, 5)) {
+            return;
+        }
+    }
+}
+
+fn out_of_order_once(h: &mut History, rng: &mut Rng, kinds: OooKinds) {
+    let n = h.recs.len();
+    if n < 3 {
+        return;
+    }
+    // rounds of the file, as indices into the (time-ordered) original
+    let mut rounds: Vec<Vec<usize>> = Vec::new();
+    let mut i = 0;
+    while i < n {
+        let len = (1 + rng.below(5) as usize).min(n - i);
+        rounds.push((i..i + len).collect());
+        i += len;
+    }
+    let mut recs = h.recs.clone();
+    let allowed = |r: &Rec| match r {
+        Rec::Sample { .. } => kinds.samples,
+        Rec::Mmap2 { .. } => kinds.mmap2,
+        Rec::Fork { .. } | Rec::Exit { .. } | Rec::Comm { .. } => kinds.lifecycle,
+        _ => false,
+    };
+    let set_time = |r: &mut Rec, nt: u64| match r {
+        Rec::Sample { t, .. } | Rec::Fork { t, .. } | Rec::Exit { t, .. } | Rec::Comm { t, .. } | Rec::Mmap2 { t, .. } | Rec::SwitchIn { t, .. } | Rec::SwitchOut { t, .. } | Rec::Sched { t, .. } => *t = nt,
+    };
+    for k in 2..rounds.len() {
+        let whole_round = rng.chance(1, 6);
+        for &idx in &rounds[k].clone() {
+            if !allowed(&recs[idx]) || !(whole_round || rng.chance(1, 5)) {
+                continue;
+            }
+            let zero_ok = kinds.zero && matches!(recs[idx], Rec::Comm { .. } | Rec::Mmap2 { .. } | Rec::Fork { .. });
+            let nt = if zero_ok && rng.chance(1, 4) {
+                0
+            } else {
+                // older than a record two or more rounds back
+                let back = &rounds[rng.below(k as u64 - 1) as usize];
+                let anchor = recs[back[rng.below(back.len() as u64) as usize]].time();
+                anchor.saturating_sub(*rng.pick(&[0u64, 1, 1000, 50_000, 2_000_000])).max(1)
+            };
+            set_time(&mut recs[idx], nt);
+        }
+    }
+    // orphan thread EXITs (candidate finding C17-phantom-process-on-thread-exit) that the re-ordering created
+    // are taken out of the file (they occur in the fixed families of C17 only)
+    let order = loop {
+        let file: Vec<Vec<(u64, usize)>> = rounds.iter().map(|r| r.iter().map(|i| (recs[*i].time(), *i)).collect()).collect();
+        let order = sorter_delivery(&file);
+        let mut lt = LifeTrack::new(h.ref_time);
+        let mut orphan = None;
+        for i in &order {
+            if lt.orphan_thread_exit(&recs[*i]) {
+                orphan = Some(*i);
+                break;
+            }
+            lt.step(&recs[*i]);
+        }
+        match orphan {
+            Some(i) => {
+                for r in rounds.iter_mut() {
+                    r.retain(|x| *x != i);
+                }
+                rounds.retain(|r| !r.is_empty());
+            }
+            None => break order,
+        }
+    };
+    // position of every original index in the delivery order
+    let mut pos = vec![0usize; n];
+    for (p, idx) in order.iter().enumerate() {
+        pos[*idx] = p;
+    }
+    h.recs = order.iter().map(|i| recs[*i].clone()).collect();
+    h.layout = rounds.iter().map(|r| r.iter().map(|i| pos[*i]).collect()).collect();
+    debug_assert!(layout_consistent(h));
+}
+
+/// A history given by the rounds of its perf.data file (records in file order): `recs` becomes the order in
+/// which the reader's sorter delivers them, `layout` the rounds as indices into that order.
+pub fn history_from_file_rounds(ref_time: u64, rounds: Vec<Vec<Rec>>) -> History {
+    let flat: Vec<Rec> = rounds.iter().flatten().cloned().collect();
+    let mut file: Vec<Vec<(u64, usize)>> = Vec::new();
+    let mut k = 0;
+    for r in &rounds {
+        file.push(r.iter().map(|x| { k += 1; (x.time(), k - 1) }).collect());
+    }
+    let order = sorter_delivery(&file);
+    let mut pos = vec![0usize; flat.len()];
+    for (p, idx) in order.iter().enumerate() {
+        pos[*idx] = p;
+    }
+    let mut h = History { ref_time, recs: order.iter().map(|i| flat[*i].clone()).collect(), ..Default::default() };
+    h.layout = file.iter().map(|r| r.iter().map(|(_, i)| pos[*i]).collect()).collect();
+    h
+}
+
+/// Is the candidate finding `id` recorded in KNOWN_FINDINGS.txt (or is `CONV_FINDINGS=1` set)? Families that
+/// show a candidate finding are generated only then, so that the checks are green before and after the lead's
+/// decision; the judges condemn such outputs unconditionally.
+pub fn finding_enabled(id: &str) -> bool {
+    if let Ok(v) = std::env::var("CONV_FINDINGS") {
+        return v == "1";
+    }
+    let root = std::env::var("VERIF_ROOT").unwrap_or_else(|_| concat!(env!("CARGO_MANIFEST_DIR"), "/..").to_string());
+    std::fs::read_to_string(format!("{root}/KNOWN_FINDINGS.txt")).map(|t| t.contains(id)).unwrap_or(false)
+}
+
+pub const FINDING_PHANTOM: &str = "C17-phantom-process-on-thread-exit";
+pub const FINDING_SPECIAL: &str = "C02-special-path-not-evicting";
+pub const FINDING_BACKDATED: &str = "C02-backdated-record";
+pub const FINDING_MMAP_ARITH: &str = "C02-mmap-arith-panic";
+
+/// paths for which `DsoKey::detect` returns `None`: `handle_mmap2` ignores the record (`[vdso]` is not among
+/// them and is never generated: it would be resolved through the vdso of the samply process itself)
+pub const SPECIAL_PATHS: [&str; 4] = ["//anon", "[heap]", "[stack]", "[vvar]"];
+
+/// Final pass over a generated history with the exact lifecycle tracker (the reference time is known only
+/// now): the non-violating stream keeps only records inside the judged grammar (`Life.stepOk`); records
+/// that show a candidate finding are dropped unless the finding is enabled (`finding_enabled`).
+fn sanitize(h: &mut History, violate: bool) {
+    // orphan thread EXITs (candidate finding C17-phantom-process-on-thread-exit) only occur in the fixed
+    // families of C17, where what follows them is controlled
+    let phantom = false;
+    let mut lt = LifeTrack::new(h.ref_time);
+    let mut kept = Vec::with_capacity(h.recs.len());
+    for r in h.recs.drain(..) {
+        if !violate && !lt.step_ok(&r) {
+            continue;
+        }
+        if !phantom && lt.orphan_thread_exit(&r) {
+            continue;
+        }
+        lt.step(&r);
+        kept.push(r);
+    }
+    h.recs = kept;
 }
 
 // ---------------------------------------------------------------------------------------------
